@@ -106,7 +106,30 @@ def r2(ctx):
         g = [t for bb, t in b.calls(re.compile(r"^std::option::Option::get_or_insert_with$")) if f"field:{fld}" in Slicer(ctx.w).atoms(b, t["args"][0])]
         ctx.inst(R, f"{fid}:copy-on-first-use", bool(g), b.span, "override is created from the global config on first use, then kept" if g else
                  "override accessor no longer uses get_or_insert_with on the link's Option")
-    ctx.floor(R, 8)
+    # who may write an override: only the two accessors above (and so only the set_link_* setters that call them). A global setter that
+    # also rewrote existing overrides would silently cancel a per-link setting made earlier
+    # (config::Link is also the type of the global configuration: an override is a place below top::Link::config)
+    OV = ("turmoil::top::Link::config",)
+    OWN = {"turmoil::top::Link::latency", "turmoil::top::Link::message_loss"}
+    nw = 0
+    for b in sorted(ctx.w.bodies.values(), key=lambda b: b.id):
+        if b.crate != "turmoil":
+            continue
+        owner = b.id.split("::{closure")[0]
+        for bb, i, s2 in b.all_stmts():
+            r = s2["r"]
+            w = any(f in OV for f in place_fields(s2["p"])) and (s2["p"].get("p") or [])
+            if r["k"] in ("ref", "addr") and r.get("bk") in ("mut", "Mut") and any(f in OV for f in place_fields(r["p"])):
+                w = True
+            if not w:
+                continue
+            nw += 1
+            ok = owner in OWN
+            ctx.inst(R, f"override-writer:{owner}", ok, s2["s"], "the override is written by its accessor" if ok else
+                     f"`{owner}` takes the per-link override mutably outside Link::latency / Link::message_loss: a setter other than set_link_* can change "
+                     "(or cancel) a per-link setting, which then no longer wins over the global one")
+    ctx.inst(R, "override-writer:found", nw >= 2, "", f"{nw} mutable uses of the per-link overrides analysed" if nw >= 2 else "no mutable use of Link::config.{latency,message_loss} found (re-derive)")
+    ctx.floor(R, 11)
 
 
 def _select_by_match(ctx, b, fld):
